@@ -221,6 +221,12 @@ def gen_halfway(rng, n):
             ex = 'e' + ex
         else:
             mant, ex = s, ''
+        if '.' not in mant and not ex:
+            # an integer midpoint (doubles of 2^53 and more): the neighbours one unit above and below, and a fraction
+            # just above - long integers take another path of fast_float than numbers with a decimal point
+            out.append(str(int(mant) + 1))
+            out.append(str(int(mant) - 1))
+            out.append(mant + '.' + '0' * rng.randint(0, 12) + '1')
         out.append(mant + '1' + ex)
         if mant[-1] != '0' and '.' in mant:
             out.append(mant[:-1] + str(int(mant[-1]) - 1) + '9' * rng.randint(1, 5) + ex)
@@ -252,6 +258,12 @@ def gen_number_strings(rng, n):
         elif r < 0.4:
             out.append(mutate(rng, mutate(rng, s)))
     out += gen_halfway(rng, max(20, n // 10))
+    # integers of twenty and more digits at and next to midpoints of adjacent doubles, lower neighbour even and odd
+    for k in (63, 64, 65, 70, 80):
+        for j in (0, 1, 2, 3):
+            ulp = 2 ** (k - 52)
+            mid = 2 ** k + j * ulp + ulp // 2
+            out += [str(mid), str(mid + 1), str(mid - 1), str(mid) + '.0', str(mid) + '.000000000000000000001', '-' + str(mid + 1)]
     out += gen_repr(rng, max(20, n // 10))
     return out
 
